@@ -1,6 +1,7 @@
 /-
   Model of x/cdp (keeper/{cdp,deposit,draw,interest,seize,auctions,keeper}.go, abci.go), transcribed
-  branch by branch in the code's own evaluation order, defects included.  Core Lean only.
+  branch by branch in the code's own evaluation order, as of /repo cb3596bb2 (includes the fixes bfd342e03
+  capped debt shares, b28e8ed21 block re-check, cb3596bb2 draw feed gate).  Core Lean only.
 
   Part A — the two formulations of "under-collateralised" (C05), pure `Dec` arithmetic:
     * value ratio      `CalculateCollateralizationRatio`  (user gate `CR ≥ L`, keeper gate `CR < L`)
